@@ -3,6 +3,7 @@
 
 mod engine_life;
 mod engine_model;
+mod engine_opts;
 mod exec;
 mod gen;
 mod hooks;
@@ -97,6 +98,8 @@ fn main() {
         "model" => engine_model::main(&args),
         "replay" => engine_model::replay_main(&args),
         "shrink" => engine_model::shrink_main(&args),
+        "opts" => engine_opts::main(&args),
+        "opts-replay" => engine_opts::replay_main(&args),
         "life" => engine_life::main(&args),
         "life-replay" => engine_life::replay_main(&args),
         "try-open" => engine_life::try_open_main(&args),
